@@ -277,7 +277,8 @@ def collect(F, fn_path, tag="", inline_pred=None, facts_hook=None, loop_k=1):
                     ok = linear.entails(get_facts(), q)
                     note("precond", "ArcPayload::new", e[5], "discharged" if ok else "open", "start + length <= len(data) " + ("proved (D2)" if ok else "not proved"), p)
                 elif callee in PANIC_FNS:
-                    note("panic", callee.split("::")[-1], e[5], "fails", "explicit panic reached on a feasible path", p)
+                    note("panic", callee.split("::")[-1], e[5], "fails", "explicit panic reached on a feasible path", p,
+                         detail=enum_conditions(F, (e[6] if len(e) > 6 and e[6] is not None else p.cons), expand))
         if p.kind == "panic":
             pass  # already noted through the failing assert / unwrap effect
     # stable keys: ordinal among identical (fn, kind, desc) in source order
@@ -296,8 +297,42 @@ def collect(F, fn_path, tag="", inline_pred=None, facts_hook=None, loop_k=1):
         no = counts_old.get(bo, 0)
         counts_old[bo] = no + 1
         o.key_old = "%s|%s|%s|#%d" % (short_fn(o.fn), o.kind, o.desc, no)
-        o.key = "%s|%s|%s|#%d" % (short_fn(o.fn), o.kind, desc, n) if o.status != "discharged" else o.key_old
+        # an explicit panic is identified by the entry point it is reachable from and the enum-valued conditions under
+        # which it is reached, not by the (possibly private helper) function that contains it
+        where = fn_path if o.kind == "panic" else o.fn
+        o.key = "%s|%s|%s|#%d" % (short_fn(where), o.kind, desc, n) if o.status != "discharged" else o.key_old
     return obs, {"paths": len(ps)}
+
+
+def enum_conditions(F, cons, expand):
+    """`field=Variant` for every enum-valued state field / argument the constraints pin to one variant (sorted, position-free)."""
+    out = set()
+    for k, c in cons.items():
+        k = expand(k)
+        if k[0] == "discr" and c[0] == "eq" and isinstance(k[1], tuple) and k[1] and k[1][0] in ("init", "arg", "field"):
+            t = k[1]
+            if t[0] == "field":
+                root = t
+                while isinstance(root, tuple) and root and root[0] == "field":
+                    root = root[1]
+                if not (isinstance(root, tuple) and root and root[0] in ("init", "arg")) or not isinstance(t[2], str):
+                    continue
+                nm = t[2]
+            elif t[0] == "init":
+                names = [str(el[2]) for el in t[2] if el[0] == "f" and len(el) > 2 and el[2] is not None]
+                nm = names[-1] if names else (str(t[1][1]) if t[1][0] == "arg" else str(t[1][0]))
+            else:
+                nm = str(t[1])
+            var = None
+            try:
+                for v in F.adt(k[2])["variants"]:
+                    if v.get("discr") == c[1]:
+                        var = v["name"]
+            except Exception:
+                var = None
+            if var is not None:
+                out.add("%s=%s" % (nm, var))
+    return ";".join(sorted(out))
 
 
 def short_fn(p):
